@@ -39,7 +39,10 @@ class ZygotePool:
         self.repo = repo or repo_path()
         self.seeds = list(seeds)
         base = "/dev/shm" if os.path.isdir("/dev/shm") and os.access("/dev/shm", os.W_OK) else None
+        self._sweep_stale(base or tempfile.gettempdir())
         self.dir = tempfile.mkdtemp(prefix="pcsim-", dir=base)
+        with open(os.path.join(self.dir, "owner.pid"), "w") as f:
+            f.write(str(os.getpid()))
         self.procs = {}
         self.paths = {}
         self.owner = os.getpid()
@@ -72,6 +75,24 @@ class ZygotePool:
             if not os.path.realpath(got).startswith(os.path.realpath(want)):
                 self.close()
                 raise HarnessError("zygote imported pycaption from %s, expected under %s" % (got, want))
+
+    @staticmethod
+    def _sweep_stale(base):
+        """Socket directories of runs that were killed (their owner process is gone) are removed."""
+        try:
+            for name in os.listdir(base):
+                if not name.startswith("pcsim-") or name.startswith("pcsim-selftest"):
+                    continue
+                d = os.path.join(base, name)
+                try:
+                    with open(os.path.join(d, "owner.pid")) as f:
+                        pid = int(f.read().strip() or "0")
+                    os.kill(pid, 0)
+                except (OSError, ValueError):
+                    if os.path.exists(os.path.join(d, "owner.pid")):
+                        shutil.rmtree(d, ignore_errors=True)
+        except OSError:
+            pass
 
     def submit(self, seed, job, timeout=240.0):
         s = socket.socket(socket.AF_UNIX, socket.SOCK_STREAM)
